@@ -407,13 +407,36 @@ func (t *transpiler) evaluateVarDefinitionCallAssignment(definition parser.Varia
 }
 
 func (t *transpiler) evaluateVarAssignment(assignment parser.VariableAssignment) error {
-	for i, variable := range assignment.Variables() {
+	variables := assignment.Variables()
+	values := []string{}
+
+	// Evaluate all values before any variable is changed to support simultaneous assignments (a, b = b, a).
+	for i := range variables {
 		result, err := t.evaluateExpression(assignment.Values()[i], true)
 
 		if err != nil {
 			return err
 		}
-		err = t.converter.VarDefinition(variable.Name(), result.firstValue(), variable.Global())
+		value := result.firstValue()
+
+		if len(variables) > 1 {
+			temp := fmt.Sprintf("_ma%d", i)
+			err = t.converter.VarAssignment(temp, value, true)
+
+			if err != nil {
+				return err
+			}
+			value, err = t.converter.VarEvaluation(temp, true, true)
+
+			if err != nil {
+				return err
+			}
+		}
+		values = append(values, value)
+	}
+
+	for i, variable := range variables {
+		err := t.converter.VarDefinition(variable.Name(), values[i], variable.Global())
 
 		if err != nil {
 			return err
